@@ -21,7 +21,16 @@ warm('c05-quick', c05.space('quick'))
 warm('c06-quick', c06.space('quick'))
 warm('c01-subs', c01.sub_routine_specs('quick'))
 warm('static-quick', staticprops.static_space('quick'))
-for name in ('c09', 'c08', 'c07', 'c15', 'c16'):
+class _T:
+    def __init__(self, t):
+        self.text = t
+from vf.props import c13, c14, c15
+warm('c13-parts', [_T(t) for _g, t in c13.part_space('quick')])
+warm('c13', [_T(t) for ev in c13.alphabet() for t in ev.texts])
+warm('c14', [_T(t) for ev in c14.alphabet('quick') for t in ev.texts] + [_T(c14.SUB[3]), _T(c14.PUMP)])
+warm('c15', [_T(t) for _g, t in c15.space()] + [_T(t) for t in c15.SEQUENCED])
+warm('c11-meta', [_T(t) for t in staticprops.meta_parts()])
+for name in ('c09', 'c08', 'c07', 'c16'):
     try:
         m = __import__('vf.props.' + name, fromlist=['x'])
         if hasattr(m, 'warm_specs'):
